@@ -180,19 +180,16 @@ theorem selector_equiv_xml_counterexample :
     ¬ ∀ ts : List Tok, selShape ts = true → selNorm xmlCfg (selToks ts) = selNorm xmlCfg ts := fun h =>
   absurd (h [tok .ident "linearGradient"] (by decide)) (by decide)
 
-/-- … and for a string that is not the value of the attribute selector (known finding K-C04B-15: `["b"]` → `[b]`,
-an invalid selector becomes a valid one) -/
-theorem selector_equiv_counterexample : ¬ selector_equiv_full := fun h =>
-  absurd (h htmlCfg [tok .leftBracket "[", tok .string "\"b\"", tok .rightBracket "]"]) (by decide)
-
 /-- **attr_ident_separated** (separation inside `[…]`, where the parser drops all white space; since 0ab4bcb for
 every identifier, not only `i`): an identifier directly behind an identifier or a string is written behind a
 white-space token — whatever the rest of the state is -/
 theorem attr_ident_separated (st : SelSt) (t : Tok) (r : List Tok) (hA : st.inAttr = true) (ht : t.tt = .ident)
     (hp : st.prevIdStr = true) :
     selGo st (t :: r) =
-      Verif.Model.CssGrammar.wsTok :: t :: selGo { st with prevColon := false, prevIdStr := true } r := by
-  simp [selGo, hA, ht, hp, show (TT.ident == TT.colon) = false from rfl]
+      Verif.Model.CssGrammar.wsTok :: t ::
+        selGo { st with prevColon := false, prevIdStr := true, prevMatcher := false } r := by
+  have hm : isMatcherTok t = false := by simp [isMatcherTok, ht]
+  simp [selGo, hA, ht, hp, hm, show (TT.ident == TT.colon) = false from rfl]
 
 /-- an attribute value is written without quotes only if it has no backslash: what is written is, byte for byte,
 the content of the string (no escape is re-interpreted; K-C04B-4) -/
